@@ -116,6 +116,24 @@ def diff_path(a, b, path=()):
     return None
 
 
+def guard_loss(e, a):
+    """is the generated guard `a` the source guard `e` with params and / or ALL operands of a composite DROPPED (at any depth) and
+    nothing else changed?  That - and only that - is recorded finding F17; another type, other or re-ordered operands, a collapsed
+    level of nesting is a different defect."""
+    if e == a:
+        return True
+    if e[0] != "guard" or a[0] != "guard" or len(e[1]) != 3 or len(a[1]) != 3:
+        return False
+    (et, ep, ec), (at, ap, ac) = e[1], a[1]
+    if et != at:
+        return False
+    if ap != ep and ap[0] != canon(None):
+        return False
+    if not ac[1]:
+        return True
+    return len(ac[1]) == len(ec[1]) and all(guard_loss(x, y) for x, y in zip(ec[1], ac[1]))
+
+
 def all_diffs(a, b, path=(), out=None, limit=40):
     """every place where two trees differ (a guard that differs anywhere inside is reported once, at the guard)"""
     out = [] if out is None else out
@@ -125,7 +143,7 @@ def all_diffs(a, b, path=(), out=None, limit=40):
         out.append((path, a[0][:200], b[0][:200]))
         return out
     if a[0] == "guard" and a != b:
-        out.append((path + ("guard",), canon_tree(a)[:200], canon_tree(b)[:200]))
+        out.append((path + ("guard",), canon_tree(a)[:200], canon_tree(b)[:200], guard_loss(a, b)))
         return out
     for i, (x, y) in enumerate(zip(a[1], b[1])):
         all_diffs(x, y, path + (a[0][:30] + "#%d" % i,), out, limit)
